@@ -1,4 +1,179 @@
-/- helper lemmas for C04 (Digits) -/
+/- helper lemmas for C04 (Digits): number formatting round trips -/
 import TinyHttpModel.RespSpec
 namespace TH
+
+/-! ### `digits` -/
+
+theorem digitsAux_append (base : Nat) : ∀ (fuel n : Nat) (acc : List Nat),
+    digitsAux base fuel n acc = digitsAux base fuel n [] ++ acc := by
+  intro fuel
+  induction fuel with
+  | zero => intro n acc; simp [digitsAux]
+  | succ fuel ih =>
+    intro n acc
+    simp only [digitsAux]
+    split
+    · simp
+    · rw [ih (n / base) (n % base :: acc), ih (n / base) [n % base]]
+      simp
+
+theorem digitsAux_fuel (base : Nat) (hb : 2 ≤ base) : ∀ (f1 f2 n : Nat) (acc : List Nat),
+    n < f1 → n < f2 → digitsAux base f1 n acc = digitsAux base f2 n acc := by
+  intro f1
+  induction f1 with
+  | zero => intro f2 n acc h1; omega
+  | succ f1 ih =>
+    intro f2 n acc h1 h2
+    cases f2 with
+    | zero => omega
+    | succ f2 =>
+      simp only [digitsAux]
+      split
+      · rfl
+      · rename_i hn
+        have hpos : 0 < base := by omega
+        have hlt : n / base < n := Nat.div_lt_self (by omega) (by omega)
+        exact ih f2 (n / base) _ (by omega) (by omega)
+
+/-- the fuel-free recursion equation of `digits`. -/
+theorem digits_eq (base : Nat) (hb : 2 ≤ base) (n : Nat) :
+    digits base n = if n < base then [n] else digits base (n / base) ++ [n % base] := by
+  unfold digits
+  rw [show digitsAux base (n + 1) n [] =
+      if n < base then [n] else digitsAux base n (n / base) [n % base] from by simp [digitsAux]]
+  split
+  · rfl
+  · rename_i hn
+    have hlt : n / base < n := Nat.div_lt_self (by omega) (by omega)
+    rw [digitsAux_append, digitsAux_fuel base hb n (n / base + 1) (n / base) [] hlt (by omega)]
+
+theorem digits_lt (base : Nat) (hb : 2 ≤ base) (n : Nat) : ∀ d ∈ digits base n, d < base := by
+  induction n using Nat.strongRecOn with
+  | ind n ih =>
+    rw [digits_eq base hb n]
+    split
+    · intro d hd; simp at hd; omega
+    · rename_i hn
+      have hlt : n / base < n := Nat.div_lt_self (by omega) (by omega)
+      intro d hd
+      simp only [List.mem_append, List.mem_singleton] at hd
+      cases hd with
+      | inl h => exact ih _ hlt d h
+      | inr h => subst h; exact Nat.mod_lt _ (by omega)
+
+theorem digits_ne_nil (base : Nat) (hb : 2 ≤ base) (n : Nat) : digits base n ≠ [] := by
+  rw [digits_eq base hb n]
+  split <;> simp
+
+/-! ### decimal -/
+
+theorem ofDecAux_snoc (l : Bytes) (d a : Nat) (hd : d < 10) :
+    ofDecAux (l ++ [d + 48]) a = (ofDecAux l a).map (fun v => v * 10 + d) := by
+  induction l generalizing a with
+  | nil =>
+    have : decVal (d + 48) = some d := by
+      simp only [decVal]; rw [if_pos (by omega)]; simp
+    simp [ofDecAux, this]
+  | cons b bs ih =>
+    simp only [List.cons_append, ofDecAux]
+    cases decVal b with
+    | none => simp
+    | some v => simp [ih]
+
+theorem toDec_eq (n : Nat) :
+    toDec n = if n < 10 then [n + 48] else toDec (n / 10) ++ [n % 10 + 48] := by
+  unfold toDec
+  rw [digits_eq 10 (by omega) n]
+  split <;> simp
+
+theorem ofDecAux_toDec (n : Nat) : ofDecAux (toDec n) 0 = some n := by
+  induction n using Nat.strongRecOn with
+  | ind n ih =>
+    rw [toDec_eq n]
+    split
+    · rename_i hn
+      have : decVal (n + 48) = some n := by
+        simp only [decVal]; rw [if_pos (by omega)]; simp
+      simp [ofDecAux, this]
+    · rename_i hn
+      rw [ofDecAux_snoc _ _ _ (Nat.mod_lt _ (by omega)), ih (n / 10) (by omega)]
+      simp only [Option.map_some, Option.some.injEq]
+      omega
+
+theorem toDec_ne_nil (n : Nat) : toDec n ≠ [] := by
+  unfold toDec
+  simpa using digits_ne_nil 10 (by omega) n
+
+theorem toDec_digits (n : Nat) : ∀ b ∈ toDec n, 48 ≤ b ∧ b ≤ 57 := by
+  intro b hb
+  unfold toDec at hb
+  simp only [List.mem_map] at hb
+  obtain ⟨d, hd, rfl⟩ := hb
+  have := digits_lt 10 (by omega) n d hd
+  omega
+
+theorem ofDec_toDec (n : Nat) : ofDec (toDec n) = some n := by
+  have h := toDec_ne_nil n
+  unfold ofDec
+  split
+  · contradiction
+  · exact ofDecAux_toDec n
+
+/-! ### hexadecimal -/
+
+theorem hexVal_hexDigit (d : Nat) (hd : d < 16) : hexVal (hexDigit d) = some d := by
+  unfold hexDigit hexVal
+  by_cases h : d < 10
+  · rw [if_pos h, if_pos (by omega)]; simp only [Option.some.injEq]; omega
+  · rw [if_neg h, if_neg (by omega), if_pos (by omega)]; simp only [Option.some.injEq]; omega
+
+theorem ofHexAux_snoc (l : Bytes) (d a : Nat) (hd : d < 16) :
+    ofHexAux (l ++ [hexDigit d]) a = (ofHexAux l a).map (fun v => v * 16 + d) := by
+  induction l generalizing a with
+  | nil => simp [ofHexAux, hexVal_hexDigit d hd]
+  | cons b bs ih =>
+    simp only [List.cons_append, ofHexAux]
+    cases hexVal b with
+    | none => simp
+    | some v => simp [ih]
+
+theorem toHex_eq (n : Nat) :
+    toHex n = if n < 16 then [hexDigit n] else toHex (n / 16) ++ [hexDigit (n % 16)] := by
+  unfold toHex
+  rw [digits_eq 16 (by omega) n]
+  split <;> simp
+
+theorem ofHexAux_toHex (n : Nat) : ofHexAux (toHex n) 0 = some n := by
+  induction n using Nat.strongRecOn with
+  | ind n ih =>
+    rw [toHex_eq n]
+    split
+    · rename_i hn
+      simp [ofHexAux, hexVal_hexDigit n hn]
+    · rename_i hn
+      rw [ofHexAux_snoc _ _ _ (Nat.mod_lt _ (by omega)), ih (n / 16) (by omega)]
+      simp only [Option.map_some, Option.some.injEq]
+      omega
+
+theorem toHex_ne_nil (n : Nat) : toHex n ≠ [] := by
+  unfold toHex
+  simpa using digits_ne_nil 16 (by omega) n
+
+theorem toHex_hexdigits (n : Nat) :
+    ∀ b ∈ toHex n, (48 ≤ b ∧ b ≤ 57) ∨ (97 ≤ b ∧ b ≤ 102) := by
+  intro b hb
+  unfold toHex at hb
+  simp only [List.mem_map] at hb
+  obtain ⟨d, hd, rfl⟩ := hb
+  have := digits_lt 16 (by omega) n d hd
+  unfold hexDigit
+  split <;> omega
+
+theorem ofHex_toHex (n : Nat) : ofHex (toHex n) = some n := by
+  have h := toHex_ne_nil n
+  unfold ofHex
+  split
+  · contradiction
+  · exact ofHexAux_toHex n
+
 end TH
